@@ -208,7 +208,7 @@ def step(ctx, i, op):
     return True
 
 
-def run_sequential(case, sweep, prop=None, after_op=None, final=None):
+def run_sequential(case, sweep, prop=None, after_op=None, final=None, pre_op=None):
     """Generic sequential run.  `sweep(ctx)` is the property's observation
     sweep, executed every `sweep_every` ops and at the end."""
     ctx = Ctx(case, prop)
@@ -218,6 +218,8 @@ def run_sequential(case, sweep, prop=None, after_op=None, final=None):
         try:
             n = len(case["ops"])
             for i, op in enumerate(case["ops"]):
+                if pre_op is not None:
+                    pre_op(ctx, i, op)
                 done = step(ctx, i, op)
                 if done and after_op is not None:
                     after_op(ctx, i, op)
